@@ -276,8 +276,6 @@ Definition deviation_witnesses : list (string * list value) := [
   ("~{~A~^,~}", [ints [1; 2; 3]]);                                   (* caret *)
   ("~A~^ more", [VInt 1]);
   ("~2R", [VInt 5]);                                                  (* radix ignored *)
-  ("~:R", [VInt 100]);                                                (* ordinal of a round number *)
-  ("~:R", [VInt 20]);
   ("~@R", [VInt 0]);                                                  (* Roman zero *)
   ("~D", [VStr (tx "abc")]);                                          (* non-integer printed with escapes *)
   ("~10,'*D", [VInt 42]);                                             (* quoted parameter that is a directive character *)
@@ -306,13 +304,16 @@ Definition deviation_witnesses : list (string * list value) := [
 Lemma deviations_hold : forallb deviates deviation_witnesses = true.
 Proof. vm_compute. reflexivity. Qed.
 (* what the model and the specification say for some of them *)
-Lemma deviation_values :
-  map both [("~{~A~^,~}", [ints [1; 2; 3]]); ("~2R", [VInt 5]); ("~:R", [VInt 100]); ("~D", [VStr (tx "abc")]);
-            ("abc~2,4T|", []); ("~:*~A", [VInt 1]); ("~{~A~}}", [ints [1]]); ("~:[f~;t~]", [VList []])]%Z =
-  [ (OText (tx "1,"), OText (tx "1,2,3")); (OText (tx "five"), OText (tx "101"));
-    (OText (tx "one hundred"), OText (tx "one hundredth")); (OText (tx """abc"""), OText (tx "abc"));
-    (OText (tx "abc     |"), OText (tx "abc   |")); (OText (tx "nil"), OError);
-    (OText (tx "1"), OText (tx "1}")); (OText (tx "t"), OText (tx "f")) ].
+Definition deviation_table : list ((string * list value) * (outcome * outcome)) := [
+  (("~{~A~^,~}", [ints [1; 2; 3]]), (OText (tx "1,"), OText (tx "1,2,3")));
+  (("~2R", [VInt 5]), (OText (tx "five"), OText (tx "101")));
+  (("~D", [VStr (tx "abc")]), (OText (tx """abc"""), OText (tx "abc")));
+  (("abc~2,4T|", []), (OText (tx "abc     |"), OText (tx "abc   |")));
+  (("~:*~A", [VInt 1]), (OText (tx "nil"), OError));
+  (("~{~A~}}", [ints [1]]), (OText (tx "1"), OText (tx "1}")));
+  (("~:[f~;t~]", [VList []]), (OText (tx "t"), OText (tx "f")))
+]%Z.
+Lemma deviation_values : map (fun e => both (fst e)) deviation_table = map snd deviation_table.
 Proof. vm_compute. reflexivity. Qed.
 
 (* ---- the guard is satisfiable: runs that consult no deviating site and use every kind of directive ---------- *)
@@ -378,29 +379,19 @@ Proof.
   destruct (std_roman colon z) as [t|]; unfold pick; cbn [opt_text_eqb]; rewrite ?text_eqb_refl; reflexivity.
 Qed.
 
-(* ---- dirR's English loop against the definition: proved for all integers in EnglishProofs.v (english_loop,
-   english_loop_converse, english_loop_exact; english_ok is defined there). The bounded sweeps below are kept as
-   examples only: they were the evidence before the theorem existed and exercise the predicate on concrete numbers. ---- *)
+(* ---- dirR's English loop against the definition: proved for all integers in EnglishProofs.v (english_loop). Examples
+   only: the loop and the definition agree on every n below 3000 and on numbers spread over all magnitudes. ---- *)
 From C15 Require Import EnglishProofs.
-Definition english_agrees (ordinal : bool) (n : N) : bool :=
-  Bool.eqb (opt_text_eqb (go_english src_tables ordinal (dec_text (Z.of_N n))) (std_english ordinal (Z.of_N n)))
-           (english_ok ordinal n).
-Definition sweep (ordinal : bool) (hi lo : nat) : bool :=
-  forallb (fun i => forallb (fun j => english_agrees ordinal (N.of_nat i * 1000 + N.of_nat j)%N) (seq 0 lo)) (seq 0 hi).
-(* every n below 20000, cardinal and ordinal: the loop writes the defined text exactly when english_ok holds *)
-Example english_sweep_20000 : sweep false 20 1000 = true /\ sweep true 20 1000 = true.
-Proof. split; vm_compute; reflexivity. Qed.
-(* and on a few hundred numbers spread over all magnitudes, negative ones included *)
+Definition english_agrees_z (ordinal : bool) (z : Z) : bool :=
+  opt_text_eqb (go_english src_tables ordinal (dec_text z)) (std_english ordinal z).
 Definition spread : list Z :=
   flat_map (fun k => map (fun m => (m * 10 ^ Z.of_nat k + 7 * 10 ^ Z.of_nat (k / 2) + 13)%Z) [1; 19; 20; 21; 99; 100; 101; 110; 120; 999; -5; -40; -215]%Z)
-           (seq 0 66).
-Definition english_agrees_z (ordinal : bool) (z : Z) : bool :=
-  Bool.eqb (opt_text_eqb (go_english src_tables ordinal (dec_text z)) (std_english ordinal z)) (english_ok ordinal (Z.abs_N z)).
+           (seq 0 66) ++ map Z.of_nat (seq 0 3000) ++ map (fun k => (10 ^ Z.of_nat k)%Z) (seq 0 70).
 Example english_spread : forallb (english_agrees_z false) spread = true /\ forallb (english_agrees_z true) spread = true.
 Proof. split; vm_compute; reflexivity. Qed.
 
 (* ---- the two sites of ~R without parameters, for all integers: the readings coincide (no taint is added) on every
-   integer but 0 for the Roman forms and on english_ok for the English forms --------------------------------------- *)
+   integer but 0 for the Roman forms and on every integer for the English forms --------------------------------------- *)
 From C15 Require Import RomanProofs.
 Theorem roman_site_coincides_all : forall colon c z, z <> 0%Z -> arg_at c = Some (VInt z) ->
   dir_radix true src_tables colon true [] c = dir_radix false src_tables colon true [] c.
@@ -410,11 +401,11 @@ Proof.
   rewrite (go_roman_all_integers colon z Hz).
   destruct (std_roman colon z) as [t|]; unfold pick; cbn [opt_text_eqb]; rewrite ?text_eqb_refl; reflexivity.
 Qed.
-Theorem english_site_coincides : forall colon c z, english_ok colon (Z.abs_N z) = true -> arg_at c = Some (VInt z) ->
+Theorem english_site_coincides : forall colon c z, arg_at c = Some (VInt z) ->
   dir_radix true src_tables colon false [] c = dir_radix false src_tables colon false [] c.
 Proof.
-  intros colon c z Hz Ha. unfold dir_radix. rewrite Ha.
+  intros colon c z Ha. unfold dir_radix. rewrite Ha.
   destruct (nargs c <=? c_apos c)%Z; [reflexivity|].
-  rewrite (english_loop colon z Hz).
+  rewrite (english_loop colon z).
   destruct (std_english colon z) as [t|]; unfold pick; cbn [opt_text_eqb]; rewrite ?text_eqb_refl; reflexivity.
 Qed.
